@@ -82,19 +82,19 @@ def make_array(spec, small=False, nonneg=False):
         else:
             lo, hi = int(info.min), int(info.max)
         arr = rng.integers(lo, hi, size=shape, endpoint=True, dtype=np.int64 if dt != np.uint64 else np.uint64)
-        return np.ascontiguousarray(arr.astype(dt))
+        return np.array(arr, dtype=dt, order="C").reshape(shape)
     if dt.kind == "f":
         if small:
-            arr = rng.uniform(0.0 if nonneg else -100.0, 100.0, size=shape)
+            arr = np.asarray(rng.uniform(0.0 if nonneg else -100.0, 100.0, size=shape))
         else:
-            arr = rng.standard_normal(size=shape) * (10.0 ** rng.integers(-3, 4))
+            arr = np.asarray(rng.standard_normal(size=shape) * (10.0 ** rng.integers(-3, 4)))
             flat = arr.reshape(-1)
             if flat.size >= 4:  # specials survive a bit-exact round trip
                 flat[rng.integers(0, flat.size)] = np.nan
                 flat[rng.integers(0, flat.size)] = -0.0
                 flat[rng.integers(0, flat.size)] = np.inf
         with np.errstate(over="ignore"):
-            return np.ascontiguousarray(arr.astype(dt))
+            return np.array(arr, dtype=dt, order="C").reshape(shape)
     raise HarnessError("dtype %r not supported by the generator" % (spec["dtype"],))
 
 
@@ -637,7 +637,8 @@ def _audio_arrays(draw, cont):
 
 def _shape():
     dim = st.one_of(st.integers(1, 6), st.integers(0, 12))
-    return st.lists(dim, min_size=1, max_size=3)
+    # (one shape in ten is 0-d: a scalar dataset / array is a valid stored array too)
+    return st.one_of(*([st.lists(dim, min_size=1, max_size=3)] * 9 + [st.just([])]))
 
 
 @st.composite
